@@ -20,6 +20,13 @@
      - command aliases (enc/encrypt, dec/decrypt, pass/password, key gen/generate, -v/--version) and option spellings
        (long or short name, one or two dashes, separate or '=' value, any order) parse to the same command, hence the
        whole program gives the same result; the parser never panics.
+     - THE TREE (Model/Cli.v: files and directories, path strings resolved component by component): exit 0 iff the operation
+       completed ALSO over failures of the output path and of the input handle: a -o path that cannot be created (missing
+       parent directory, a directory, a file used as a directory, empty string, trailing slash) never gives exit 0 and changes
+       nothing (C12_bad_output_never_exits_zero); a directory as input never gives exit 0 (C12_dir_input_never_exits_zero);
+       exit 0 of an encryptor means the library returned Ok on a regular input and a creatable sink and the -o file holds
+       everything it wrote (C12_encrypt_success_delivers, C12_pass_encrypt_success_delivers); the wiring theorems speak of
+       the FILE a path denotes, not of its spelling (other_file / input_elsewhere);
    PARTIAL / not covered: the text on stderr (the "Error: ..." line, the sender line) is represented only by the
    status value, not as bytes; terminal prompts; real file-system and OS errors; invalid-UTF-8 arguments; encrypt
    commands under different wirings are compared as whole result records for the same random blocks (the harness
@@ -27,7 +34,7 @@
 From Kestrel Require Import Bytes Outcome IO Prims.
 From Kestrel.gen Require Import Extracted.
 From Kestrel.Model Require Import AeadWrap Chunks Noise Files KeyringText Getopts CliParse CliParseSpec Cli CliGlue Combine2Defs.
-From Kestrel.Proofs Require Import ChunksAuth CliFacts CliParseFacts Combine2Cli Combine2Main.
+From Kestrel.Proofs Require Import ChunksAuth CliFs CliFacts CliTree CliParseFacts Combine2Cli Combine2Main.
 From Coq Require Import Permutation.
 Local Open Scope N_scope.
 
@@ -126,8 +133,9 @@ Theorem C12_cli_parse_no_panic :
 Proof. exact cli_parse_no_panic. Qed.
 Print Assumptions C12_cli_parse_no_panic.
 
-(* a successful key decrypt delivered exactly the w_out of a library run (script-free io state on the input bytes)
-   that returned Ok; the input bytes are the file argument's content or stdin *)
+(* a successful key decrypt delivered exactly the w_out of a library run (script-free io state on the bytes fed) that
+   returned Ok; the bytes fed (dec_fed) are the file argument's content or stdin — unless the input path and the -o path
+   denote ONE file under two different strings (dj_alias; Props/C13.v::C13_alias_caveat) *)
 Theorem C12_decrypt_success_delivers :
   forall (P : prims) (pk_ok sk_ok : text -> bool) (unlock : text -> bytes -> outcome kerr bytes)
          (decode_pk : text -> outcome kerr bytes) (encode_pk : bytes -> text) (utf8_decode : bytes -> option text)
@@ -135,15 +143,16 @@ Theorem C12_decrypt_success_delivers :
   is_success (status (cmd_decrypt P pk_ok sk_ok unlock decode_pk encode_pk utf8_decode w o)) = true ->
   exists (j : dec_job) (sender : bytes) (s' : io),
     decrypt_plan pk_ok sk_ok unlock decode_pk utf8_decode w o = inr j /\
-    key_decrypt P (dj_r j) (dj_rpk j) (io0 (dj_input j)) = (Ok sender, s') /\
+    key_decrypt P (dj_r j) (dj_rpk j) (io0 (dec_fed P j)) = (Ok sender, s') /\
     resolve_input w (do_infile o) = inr (dj_input j) /\
     status (cmd_decrypt P pk_ok sk_ok unlock decode_pk encode_pk utf8_decode w o) = sender_status encode_pk (dj_keys j) sender /\
     match do_outfile o with
     | Some F => fs_get (new_fs (cmd_decrypt P pk_ok sk_ok unlock decode_pk encode_pk utf8_decode w o)) F = Some (w_out (wtr s')) /\
-                (forall q, q <> F -> fs_get (new_fs (cmd_decrypt P pk_ok sk_ok unlock decode_pk encode_pk utf8_decode w o)) q = fs_get (fs w) q) /\
+                (forall q, fs_target (fs w) q <> fs_target (fs w) F -> fs_get (new_fs (cmd_decrypt P pk_ok sk_ok unlock decode_pk encode_pk utf8_decode w o)) q = fs_get (fs w) q) /\
                 stdout (cmd_decrypt P pk_ok sk_ok unlock decode_pk encode_pk utf8_decode w o) = []
     | None => stdout (cmd_decrypt P pk_ok sk_ok unlock decode_pk encode_pk utf8_decode w o) = w_out (wtr s') /\ new_fs (cmd_decrypt P pk_ok sk_ok unlock decode_pk encode_pk utf8_decode w o) = fs w
-    end.
+    end /\
+    (dj_alias j = false -> dec_fed P j = dj_input j).
 Proof. exact decrypt_success_delivers. Qed.
 Print Assumptions C12_decrypt_success_delivers.
 
@@ -153,16 +162,17 @@ Theorem C12_pass_decrypt_success_delivers :
   is_success (status (cmd_pass_decrypt P w o)) = true ->
   exists (j : pw_job) (s' : io),
     pass_decrypt_plan w o = inr j /\
-    pass_decrypt P (pj_pw j) (io0 (pj_input j)) = (Ok tt, s') /\
+    pass_decrypt P (pj_pw j) (io0 (pdec_fed P j)) = (Ok tt, s') /\
     resolve_input w (po_infile o) = inr (pj_input j) /\
     ask_pass w (po_env_pass o) = inr (pj_pw j) /\
     status (cmd_pass_decrypt P w o) = SOk /\
     match po_outfile o with
     | Some F => fs_get (new_fs (cmd_pass_decrypt P w o)) F = Some (w_out (wtr s')) /\
-                (forall q, q <> F -> fs_get (new_fs (cmd_pass_decrypt P w o)) q = fs_get (fs w) q) /\
+                (forall q, fs_target (fs w) q <> fs_target (fs w) F -> fs_get (new_fs (cmd_pass_decrypt P w o)) q = fs_get (fs w) q) /\
                 stdout (cmd_pass_decrypt P w o) = []
     | None => stdout (cmd_pass_decrypt P w o) = w_out (wtr s') /\ new_fs (cmd_pass_decrypt P w o) = fs w
-    end.
+    end /\
+    (pj_alias j = false -> pdec_fed P j = pj_input j).
 Proof. exact pass_decrypt_success_delivers. Qed.
 Print Assumptions C12_pass_decrypt_success_delivers.
 
@@ -178,13 +188,14 @@ Theorem C12_cli_decrypt_ok_is_complete_plaintext :
   is_success (status (cmd_decrypt P pk_ok sk_ok unlock decode_pk encode_pk utf8_decode w o)) = true ->
   exists (j : dec_job) (msg rest payload spk hh : bytes) (s' : io),
     decrypt_plan pk_ok sk_ok unlock decode_pk utf8_decode w o = inr j /\ resolve_input w (do_infile o) = inr (dj_input j) /\
-    dj_input j = x_prologue ++ msg ++ rest /\ length msg = 128%nat /\
+    dec_fed P j = x_prologue ++ msg ++ rest /\ length msg = 128%nat /\
     noise_decrypt P (dj_r j) (dj_rpk j) x_prologue msg = Ok (payload, spk, hh) /\
-    key_decrypt P (dj_r j) (dj_rpk j) (io0 (dj_input j)) = (Ok spk, s') /\
+    key_decrypt P (dj_r j) (dj_rpk j) (io0 (dec_fed P j)) = (Ok spk, s') /\
     status (cmd_decrypt P pk_ok sk_ok unlock decode_pk encode_pk utf8_decode w o) = sender_status encode_pk (dj_keys j) spk /\
     delivered (do_outfile o) (cmd_decrypt P pk_ok sk_ok unlock decode_pk encode_pk utf8_decode w o) = Some (w_out (wtr s')) /\
-    forall chunks : list bytes, no_forgery P (file_key P payload hh) [] chunks (log s') ->
-      delivered (do_outfile o) (cmd_decrypt P pk_ok sk_ok unlock decode_pk encode_pk utf8_decode w o) = Some (concat chunks).
+    (forall chunks : list bytes, no_forgery P (file_key P payload hh) [] chunks (log s') ->
+      delivered (do_outfile o) (cmd_decrypt P pk_ok sk_ok unlock decode_pk encode_pk utf8_decode w o) = Some (concat chunks)) /\
+    (dj_alias j = false -> dec_fed P j = dj_input j).
 Proof. exact cli_decrypt_ok_is_complete_plaintext. Qed.
 Print Assumptions C12_cli_decrypt_ok_is_complete_plaintext.
 
@@ -193,13 +204,14 @@ Theorem C12_cli_pass_decrypt_ok_is_complete_plaintext :
   forall (P : prims), aead_ok P -> hash_ok P ->
   forall (w : world) (o : pw_opts),
   is_success (status (cmd_pass_decrypt P w o)) = true ->
-  exists (input pw salt rest : bytes) (s' : io),
+  exists (input fed pw salt rest : bytes) (s' : io),
     resolve_input w (po_infile o) = inr input /\ ask_pass w (po_env_pass o) = inr pw /\
-    input = x_pass_file_magic ++ salt ++ rest /\ length salt = 32%nat /\
-    pass_decrypt P pw (io0 input) = (Ok tt, s') /\
+    fed = x_pass_file_magic ++ salt ++ rest /\ length salt = 32%nat /\
+    pass_decrypt P pw (io0 fed) = (Ok tt, s') /\
     delivered (po_outfile o) (cmd_pass_decrypt P w o) = Some (w_out (wtr s')) /\
-    forall chunks : list bytes, no_forgery P (kdf P pw salt) x_pass_file_magic chunks (log s') ->
-      delivered (po_outfile o) (cmd_pass_decrypt P w o) = Some (concat chunks).
+    (forall chunks : list bytes, no_forgery P (kdf P pw salt) x_pass_file_magic chunks (log s') ->
+      delivered (po_outfile o) (cmd_pass_decrypt P w o) = Some (concat chunks)) /\
+    exists j, pass_decrypt_plan w o = inr j /\ fed = pdec_fed P j /\ (pj_alias j = false -> fed = input).
 Proof. exact cli_pass_decrypt_ok_is_complete_plaintext. Qed.
 Print Assumptions C12_cli_pass_decrypt_ok_is_complete_plaintext.
 
@@ -213,7 +225,7 @@ Theorem C12_sender_named :
   is_success (status (cmd_decrypt P pk_ok sk_ok unlock decode_pk encode_pk utf8_decode w o)) = true ->
   exists (j : dec_job) (sender : bytes) (s' : io),
     decrypt_plan pk_ok sk_ok unlock decode_pk utf8_decode w o = inr j /\
-    key_decrypt P (dj_r j) (dj_rpk j) (io0 (dj_input j)) = (Ok sender, s') /\
+    key_decrypt P (dj_r j) (dj_rpk j) (io0 (dec_fed P j)) = (Ok sender, s') /\
     resolve_keyring pk_ok sk_ok utf8_decode w (do_keyring o) = inr (dj_keys j) /\
     status (cmd_decrypt P pk_ok sk_ok unlock decode_pk encode_pk utf8_decode w o) =
       match find (fun e => text_eqb (k_pub e) (encode_pk sender)) (dj_keys j) with
@@ -227,13 +239,13 @@ Theorem C12_sender_named :
 Proof. exact sender_named. Qed.
 Print Assumptions C12_sender_named.
 
-(* input wiring, decrypt: the file argument p holding B, or B on stdin (out <> p, else the first form is refused): the SAME result record *)
+(* input wiring, decrypt: the file argument p holding B, or B on stdin (the -o path, if any, does not denote the input FILE: other_file, whatever the two strings look like): the SAME result record *)
 Theorem C12_decrypt_input_wiring :
   forall (P : prims) (pk_ok sk_ok : text -> bool) (unlock : text -> bytes -> outcome kerr bytes)
          (decode_pk : text -> outcome kerr bytes) (encode_pk : bytes -> text) (utf8_decode : bytes -> option text)
          (fsy : fsys) (ep enp : option bytes) (ek : option text) (sin : bytes) (p : text) (B : bytes) (t : text)
          (out k : option text) (e : bool),
-  fs_get fsy p = Some B -> out <> Some p ->
+  fs_get fsy p = Some B -> other_file fsy out p ->
   cmd_decrypt P pk_ok sk_ok unlock decode_pk encode_pk utf8_decode {| fs := fsy; env_password := ep; env_new_password := enp; env_keyring := ek; stdin := sin |} {| do_infile := Some p; do_to := t; do_outfile := out; do_keyring := k; do_env_pass := e |}
   = cmd_decrypt P pk_ok sk_ok unlock decode_pk encode_pk utf8_decode {| fs := fsy; env_password := ep; env_new_password := enp; env_keyring := ek; stdin := B |} {| do_infile := None; do_to := t; do_outfile := out; do_keyring := k; do_env_pass := e |}.
 Proof. exact decrypt_input_wiring. Qed.
@@ -243,7 +255,7 @@ Print Assumptions C12_decrypt_input_wiring.
 Theorem C12_pass_decrypt_input_wiring :
   forall (P : prims) (fsy : fsys) (ep enp : option bytes) (ek : option text) (sin : bytes) (p : text) (B : bytes)
          (out : option text) (e : bool),
-  fs_get fsy p = Some B -> out <> Some p ->
+  fs_get fsy p = Some B -> other_file fsy out p ->
   cmd_pass_decrypt P {| fs := fsy; env_password := ep; env_new_password := enp; env_keyring := ek; stdin := sin |} {| po_infile := Some p; po_outfile := out; po_env_pass := e |}
   = cmd_pass_decrypt P {| fs := fsy; env_password := ep; env_new_password := enp; env_keyring := ek; stdin := B |} {| po_infile := None; po_outfile := out; po_env_pass := e |}.
 Proof. exact pass_decrypt_input_wiring. Qed.
@@ -255,7 +267,7 @@ Theorem C12_encrypt_input_wiring :
          (decode_pk : text -> outcome kerr bytes) (utf8_decode : bytes -> option text)
          (fsy : fsys) (ep enp : option bytes) (ek : option text) (sin : bytes) (p : text) (B : bytes) (t f : text)
          (out k : option text) (e : bool) (fpk fe : bytes),
-  fs_get fsy p = Some B -> out <> Some p ->
+  fs_get fsy p = Some B -> other_file fsy out p ->
   cmd_encrypt P pk_ok sk_ok unlock decode_pk utf8_decode {| fs := fsy; env_password := ep; env_new_password := enp; env_keyring := ek; stdin := sin |} {| eo_infile := Some p; eo_to := t; eo_from := f; eo_outfile := out; eo_keyring := k; eo_env_pass := e |} fpk fe
   = cmd_encrypt P pk_ok sk_ok unlock decode_pk utf8_decode {| fs := fsy; env_password := ep; env_new_password := enp; env_keyring := ek; stdin := B |} {| eo_infile := None; eo_to := t; eo_from := f; eo_outfile := out; eo_keyring := k; eo_env_pass := e |} fpk fe.
 Proof. exact encrypt_input_wiring. Qed.
@@ -265,24 +277,24 @@ Print Assumptions C12_encrypt_input_wiring.
 Theorem C12_pass_encrypt_input_wiring :
   forall (P : prims) (fsy : fsys) (ep enp : option bytes) (ek : option text) (sin : bytes) (p : text) (B : bytes)
          (out : option text) (e : bool) (salt : bytes),
-  fs_get fsy p = Some B -> out <> Some p ->
+  fs_get fsy p = Some B -> other_file fsy out p ->
   cmd_pass_encrypt P {| fs := fsy; env_password := ep; env_new_password := enp; env_keyring := ek; stdin := sin |} {| po_infile := Some p; po_outfile := out; po_env_pass := e |} salt
   = cmd_pass_encrypt P {| fs := fsy; env_password := ep; env_new_password := enp; env_keyring := ek; stdin := B |} {| po_infile := None; po_outfile := out; po_env_pass := e |} salt.
 Proof. exact pass_encrypt_input_wiring. Qed.
 Print Assumptions C12_pass_encrypt_input_wiring.
 
-(* output wiring, decrypt: -o F (F different from the input path, prior state of F arbitrary) versus stdout: same status
+(* output wiring, decrypt: -o F (F can be created, at canonical path cp; the input, if a path, does not denote cp; prior state of F arbitrary) versus stdout: same status
    and exit code; nothing else changes; as soon as one write/flush call was made — in particular whenever the command
    succeeds — the content of F equals the stdout bytes of the other wiring; with no such call F is left as it was *)
 Theorem C12_decrypt_output_wiring :
   forall (P : prims) (pk_ok sk_ok : text -> bool) (unlock : text -> bytes -> outcome kerr bytes)
          (decode_pk : text -> outcome kerr bytes) (encode_pk : bytes -> text) (utf8_decode : bytes -> option text)
-         (w : world) (i : option text) (t F : text) (k : option text) (e : bool),
-  i <> Some F ->
+         (w : world) (i : option text) (t F : text) (cp : cpath) (k : option text) (e : bool),
+  fs_create_target (fs w) F = Some cp -> input_elsewhere (fs w) i cp ->
   status (cmd_decrypt P pk_ok sk_ok unlock decode_pk encode_pk utf8_decode w {| do_infile := i; do_to := t; do_outfile := (Some F); do_keyring := k; do_env_pass := e |}) = status (cmd_decrypt P pk_ok sk_ok unlock decode_pk encode_pk utf8_decode w {| do_infile := i; do_to := t; do_outfile := None; do_keyring := k; do_env_pass := e |}) /\
   exit_code (cmd_decrypt P pk_ok sk_ok unlock decode_pk encode_pk utf8_decode w {| do_infile := i; do_to := t; do_outfile := (Some F); do_keyring := k; do_env_pass := e |}) = exit_code (cmd_decrypt P pk_ok sk_ok unlock decode_pk encode_pk utf8_decode w {| do_infile := i; do_to := t; do_outfile := None; do_keyring := k; do_env_pass := e |}) /\
   stdout (cmd_decrypt P pk_ok sk_ok unlock decode_pk encode_pk utf8_decode w {| do_infile := i; do_to := t; do_outfile := (Some F); do_keyring := k; do_env_pass := e |}) = [] /\ new_fs (cmd_decrypt P pk_ok sk_ok unlock decode_pk encode_pk utf8_decode w {| do_infile := i; do_to := t; do_outfile := None; do_keyring := k; do_env_pass := e |}) = fs w /\
-  (forall q, q <> F -> fs_get (new_fs (cmd_decrypt P pk_ok sk_ok unlock decode_pk encode_pk utf8_decode w {| do_infile := i; do_to := t; do_outfile := (Some F); do_keyring := k; do_env_pass := e |})) q = fs_get (fs w) q) /\
+  (forall q, fs_target (fs w) q <> fs_target (fs w) F -> fs_get (new_fs (cmd_decrypt P pk_ok sk_ok unlock decode_pk encode_pk utf8_decode w {| do_infile := i; do_to := t; do_outfile := (Some F); do_keyring := k; do_env_pass := e |})) q = fs_get (fs w) q) /\
   (forall j, decrypt_plan pk_ok sk_ok unlock decode_pk utf8_decode w {| do_infile := i; do_to := t; do_outfile := None; do_keyring := k; do_env_pass := e |} = inr j -> sink_touched (snd (run_dec P j)) = true ->
      fs_get (new_fs (cmd_decrypt P pk_ok sk_ok unlock decode_pk encode_pk utf8_decode w {| do_infile := i; do_to := t; do_outfile := (Some F); do_keyring := k; do_env_pass := e |})) F = Some (stdout (cmd_decrypt P pk_ok sk_ok unlock decode_pk encode_pk utf8_decode w {| do_infile := i; do_to := t; do_outfile := None; do_keyring := k; do_env_pass := e |}))) /\
   (forall j, decrypt_plan pk_ok sk_ok unlock decode_pk utf8_decode w {| do_infile := i; do_to := t; do_outfile := None; do_keyring := k; do_env_pass := e |} = inr j -> sink_touched (snd (run_dec P j)) = false -> new_fs (cmd_decrypt P pk_ok sk_ok unlock decode_pk encode_pk utf8_decode w {| do_infile := i; do_to := t; do_outfile := (Some F); do_keyring := k; do_env_pass := e |}) = fs w) /\
@@ -292,12 +304,12 @@ Print Assumptions C12_decrypt_output_wiring.
 
 (* output wiring, password decrypt *)
 Theorem C12_pass_decrypt_output_wiring :
-  forall (P : prims) (w : world) (i : option text) (F : text) (e : bool),
-  i <> Some F ->
+  forall (P : prims) (w : world) (i : option text) (F : text) (cp : cpath) (e : bool),
+  fs_create_target (fs w) F = Some cp -> input_elsewhere (fs w) i cp ->
   status (cmd_pass_decrypt P w {| po_infile := i; po_outfile := (Some F); po_env_pass := e |}) = status (cmd_pass_decrypt P w {| po_infile := i; po_outfile := None; po_env_pass := e |}) /\
   exit_code (cmd_pass_decrypt P w {| po_infile := i; po_outfile := (Some F); po_env_pass := e |}) = exit_code (cmd_pass_decrypt P w {| po_infile := i; po_outfile := None; po_env_pass := e |}) /\
   stdout (cmd_pass_decrypt P w {| po_infile := i; po_outfile := (Some F); po_env_pass := e |}) = [] /\ new_fs (cmd_pass_decrypt P w {| po_infile := i; po_outfile := None; po_env_pass := e |}) = fs w /\
-  (forall q, q <> F -> fs_get (new_fs (cmd_pass_decrypt P w {| po_infile := i; po_outfile := (Some F); po_env_pass := e |})) q = fs_get (fs w) q) /\
+  (forall q, fs_target (fs w) q <> fs_target (fs w) F -> fs_get (new_fs (cmd_pass_decrypt P w {| po_infile := i; po_outfile := (Some F); po_env_pass := e |})) q = fs_get (fs w) q) /\
   (forall j, pass_decrypt_plan w {| po_infile := i; po_outfile := None; po_env_pass := e |} = inr j -> sink_touched (snd (run_pdec P j)) = true ->
      fs_get (new_fs (cmd_pass_decrypt P w {| po_infile := i; po_outfile := (Some F); po_env_pass := e |})) F = Some (stdout (cmd_pass_decrypt P w {| po_infile := i; po_outfile := None; po_env_pass := e |}))) /\
   (forall j, pass_decrypt_plan w {| po_infile := i; po_outfile := None; po_env_pass := e |} = inr j -> sink_touched (snd (run_pdec P j)) = false -> new_fs (cmd_pass_decrypt P w {| po_infile := i; po_outfile := (Some F); po_env_pass := e |}) = fs w) /\
@@ -309,12 +321,12 @@ Print Assumptions C12_pass_decrypt_output_wiring.
 Theorem C12_encrypt_output_wiring :
   forall (P : prims) (pk_ok sk_ok : text -> bool) (unlock : text -> bytes -> outcome kerr bytes)
          (decode_pk : text -> outcome kerr bytes) (utf8_decode : bytes -> option text)
-         (w : world) (i : option text) (t f F : text) (k : option text) (e : bool) (fpk fe : bytes),
-  i <> Some F ->
+         (w : world) (i : option text) (t f F : text) (cp : cpath) (k : option text) (e : bool) (fpk fe : bytes),
+  fs_create_target (fs w) F = Some cp -> input_elsewhere (fs w) i cp ->
   status (cmd_encrypt P pk_ok sk_ok unlock decode_pk utf8_decode w {| eo_infile := i; eo_to := t; eo_from := f; eo_outfile := (Some F); eo_keyring := k; eo_env_pass := e |} fpk fe) = status (cmd_encrypt P pk_ok sk_ok unlock decode_pk utf8_decode w {| eo_infile := i; eo_to := t; eo_from := f; eo_outfile := None; eo_keyring := k; eo_env_pass := e |} fpk fe) /\
   exit_code (cmd_encrypt P pk_ok sk_ok unlock decode_pk utf8_decode w {| eo_infile := i; eo_to := t; eo_from := f; eo_outfile := (Some F); eo_keyring := k; eo_env_pass := e |} fpk fe) = exit_code (cmd_encrypt P pk_ok sk_ok unlock decode_pk utf8_decode w {| eo_infile := i; eo_to := t; eo_from := f; eo_outfile := None; eo_keyring := k; eo_env_pass := e |} fpk fe) /\
   stdout (cmd_encrypt P pk_ok sk_ok unlock decode_pk utf8_decode w {| eo_infile := i; eo_to := t; eo_from := f; eo_outfile := (Some F); eo_keyring := k; eo_env_pass := e |} fpk fe) = [] /\ new_fs (cmd_encrypt P pk_ok sk_ok unlock decode_pk utf8_decode w {| eo_infile := i; eo_to := t; eo_from := f; eo_outfile := None; eo_keyring := k; eo_env_pass := e |} fpk fe) = fs w /\
-  (forall q, q <> F -> fs_get (new_fs (cmd_encrypt P pk_ok sk_ok unlock decode_pk utf8_decode w {| eo_infile := i; eo_to := t; eo_from := f; eo_outfile := (Some F); eo_keyring := k; eo_env_pass := e |} fpk fe)) q = fs_get (fs w) q) /\
+  (forall q, fs_target (fs w) q <> fs_target (fs w) F -> fs_get (new_fs (cmd_encrypt P pk_ok sk_ok unlock decode_pk utf8_decode w {| eo_infile := i; eo_to := t; eo_from := f; eo_outfile := (Some F); eo_keyring := k; eo_env_pass := e |} fpk fe)) q = fs_get (fs w) q) /\
   (forall j, encrypt_plan pk_ok sk_ok unlock decode_pk utf8_decode w {| eo_infile := i; eo_to := t; eo_from := f; eo_outfile := None; eo_keyring := k; eo_env_pass := e |} = inr j -> sink_touched (snd (run_enc P fpk fe j)) = true ->
      fs_get (new_fs (cmd_encrypt P pk_ok sk_ok unlock decode_pk utf8_decode w {| eo_infile := i; eo_to := t; eo_from := f; eo_outfile := (Some F); eo_keyring := k; eo_env_pass := e |} fpk fe)) F = Some (stdout (cmd_encrypt P pk_ok sk_ok unlock decode_pk utf8_decode w {| eo_infile := i; eo_to := t; eo_from := f; eo_outfile := None; eo_keyring := k; eo_env_pass := e |} fpk fe))) /\
   (forall j, encrypt_plan pk_ok sk_ok unlock decode_pk utf8_decode w {| eo_infile := i; eo_to := t; eo_from := f; eo_outfile := None; eo_keyring := k; eo_env_pass := e |} = inr j -> sink_touched (snd (run_enc P fpk fe j)) = false -> new_fs (cmd_encrypt P pk_ok sk_ok unlock decode_pk utf8_decode w {| eo_infile := i; eo_to := t; eo_from := f; eo_outfile := (Some F); eo_keyring := k; eo_env_pass := e |} fpk fe) = fs w) /\
@@ -324,12 +336,12 @@ Print Assumptions C12_encrypt_output_wiring.
 
 (* output wiring, password encrypt (same salt) *)
 Theorem C12_pass_encrypt_output_wiring :
-  forall (P : prims) (w : world) (i : option text) (F : text) (e : bool) (salt : bytes),
-  i <> Some F ->
+  forall (P : prims) (w : world) (i : option text) (F : text) (cp : cpath) (e : bool) (salt : bytes),
+  fs_create_target (fs w) F = Some cp -> input_elsewhere (fs w) i cp ->
   status (cmd_pass_encrypt P w {| po_infile := i; po_outfile := (Some F); po_env_pass := e |} salt) = status (cmd_pass_encrypt P w {| po_infile := i; po_outfile := None; po_env_pass := e |} salt) /\
   exit_code (cmd_pass_encrypt P w {| po_infile := i; po_outfile := (Some F); po_env_pass := e |} salt) = exit_code (cmd_pass_encrypt P w {| po_infile := i; po_outfile := None; po_env_pass := e |} salt) /\
   stdout (cmd_pass_encrypt P w {| po_infile := i; po_outfile := (Some F); po_env_pass := e |} salt) = [] /\ new_fs (cmd_pass_encrypt P w {| po_infile := i; po_outfile := None; po_env_pass := e |} salt) = fs w /\
-  (forall q, q <> F -> fs_get (new_fs (cmd_pass_encrypt P w {| po_infile := i; po_outfile := (Some F); po_env_pass := e |} salt)) q = fs_get (fs w) q) /\
+  (forall q, fs_target (fs w) q <> fs_target (fs w) F -> fs_get (new_fs (cmd_pass_encrypt P w {| po_infile := i; po_outfile := (Some F); po_env_pass := e |} salt)) q = fs_get (fs w) q) /\
   (forall j, pass_encrypt_plan w {| po_infile := i; po_outfile := None; po_env_pass := e |} salt = inr j -> sink_touched (snd (run_penc P salt j)) = true ->
      fs_get (new_fs (cmd_pass_encrypt P w {| po_infile := i; po_outfile := (Some F); po_env_pass := e |} salt)) F = Some (stdout (cmd_pass_encrypt P w {| po_infile := i; po_outfile := None; po_env_pass := e |} salt))) /\
   (forall j, pass_encrypt_plan w {| po_infile := i; po_outfile := None; po_env_pass := e |} salt = inr j -> sink_touched (snd (run_penc P salt j)) = false -> new_fs (cmd_pass_encrypt P w {| po_infile := i; po_outfile := (Some F); po_env_pass := e |} salt) = fs w) /\
@@ -546,3 +558,69 @@ Proof.
   repeat split; intros; reflexivity.
 Qed.
 Print Assumptions C12_cli_constants.
+
+(* ====================================================================================== *)
+(* exit status over the tree: output paths that cannot be created, directory inputs        *)
+(* ====================================================================================== *)
+
+(* the -o path cannot be created (fs_create_target = None; Props/C13.v::C13_create_fails_iff says when): every writing
+   command leaves the file system as it was, prints nothing, has a failure status and an exit code other than 0 *)
+Theorem C12_bad_output_never_exits_zero :
+  forall (P : prims) (pk_ok sk_ok : text -> bool) (unlock : text -> bytes -> outcome kerr bytes)
+         (lock : bytes -> bytes -> bytes -> text) (decode_pk : text -> outcome kerr bytes) (encode_pk : bytes -> text)
+         (utf8_decode : bytes -> option text) (utf8_encode : text -> bytes),
+  (forall w o fpk fe F, eo_outfile o = Some F -> fs_create_target (fs w) F = None ->
+     failed_clean w (cmd_encrypt P pk_ok sk_ok unlock decode_pk utf8_decode w o fpk fe)) /\
+  (forall w o F, do_outfile o = Some F -> fs_create_target (fs w) F = None ->
+     failed_clean w (cmd_decrypt P pk_ok sk_ok unlock decode_pk encode_pk utf8_decode w o)) /\
+  (forall w o salt F, po_outfile o = Some F -> fs_create_target (fs w) F = None ->
+     failed_clean w (cmd_pass_encrypt P w o salt)) /\
+  (forall w o F, po_outfile o = Some F -> fs_create_target (fs w) F = None -> failed_clean w (cmd_pass_decrypt P w o)) /\
+  (forall w o sk salt F, go_outfile o = Some F -> fs_create_target (fs w) F = None ->
+     failed_clean w (cmd_gen_key P lock encode_pk utf8_decode utf8_encode w o sk salt)).
+Proof. exact bad_output_leaves_fs. Qed.
+Print Assumptions C12_bad_output_never_exits_zero.
+
+(* the input path names a directory: no streaming command exits 0 *)
+Theorem C12_dir_input_never_exits_zero :
+  forall (P : prims) (pk_ok sk_ok : text -> bool) (unlock : text -> bytes -> outcome kerr bytes)
+         (lock : bytes -> bytes -> bytes -> text) (decode_pk : text -> outcome kerr bytes) (encode_pk : bytes -> text)
+         (utf8_decode : bytes -> option text) (utf8_encode : text -> bytes),
+  (forall w o fpk fe p, eo_infile o = Some p -> is_dir (fs w) p ->
+     exit_code (cmd_encrypt P pk_ok sk_ok unlock decode_pk utf8_decode w o fpk fe) <> 0) /\
+  (forall w o p, do_infile o = Some p -> is_dir (fs w) p ->
+     exit_code (cmd_decrypt P pk_ok sk_ok unlock decode_pk encode_pk utf8_decode w o) <> 0) /\
+  (forall w o salt p, po_infile o = Some p -> is_dir (fs w) p -> exit_code (cmd_pass_encrypt P w o salt) <> 0) /\
+  (forall w o p, po_infile o = Some p -> is_dir (fs w) p -> exit_code (cmd_pass_decrypt P w o) <> 0).
+Proof. exact dir_input_never_exits_zero. Qed.
+Print Assumptions C12_dir_input_never_exits_zero.
+
+(* exit 0 of `encrypt`: the plan succeeded, the input was a regular file or stdin, the sink could be created, the library
+   run returned Ok, and what it wrote is exactly what the -o file (or stdout) holds *)
+Theorem C12_encrypt_success_delivers :
+  forall (P : prims) (pk_ok sk_ok : text -> bool) (unlock : text -> bytes -> outcome kerr bytes)
+         (decode_pk : text -> outcome kerr bytes) (utf8_decode : bytes -> option text)
+         (w : world) (o : enc_opts) (fpk fe : bytes),
+  is_success (status (cmd_encrypt P pk_ok sk_ok unlock decode_pk utf8_decode w o fpk fe)) = true ->
+  exists (j : enc_job) (s' : io), encrypt_plan pk_ok sk_ok unlock decode_pk utf8_decode w o = inr j /\
+    run_enc P fpk fe j = (Ok tt, s') /\ ej_dir j = false /\ ej_bad j = false /\
+    match eo_outfile o with
+    | Some F => fs_get (new_fs (cmd_encrypt P pk_ok sk_ok unlock decode_pk utf8_decode w o fpk fe)) F = Some (w_out (wtr s')) /\
+                stdout (cmd_encrypt P pk_ok sk_ok unlock decode_pk utf8_decode w o fpk fe) = []
+    | None => stdout (cmd_encrypt P pk_ok sk_ok unlock decode_pk utf8_decode w o fpk fe) = w_out (wtr s') /\
+              new_fs (cmd_encrypt P pk_ok sk_ok unlock decode_pk utf8_decode w o fpk fe) = fs w
+    end.
+Proof. exact encrypt_success_delivers. Qed.
+Print Assumptions C12_encrypt_success_delivers.
+
+Theorem C12_pass_encrypt_success_delivers :
+  forall (P : prims) (w : world) (o : pw_opts) (salt : bytes),
+  is_success (status (cmd_pass_encrypt P w o salt)) = true ->
+  exists (j : pw_job) (s' : io), pass_encrypt_plan w o salt = inr j /\
+    run_penc P salt j = (Ok tt, s') /\ pj_dir j = false /\ pj_bad j = false /\
+    match po_outfile o with
+    | Some F => fs_get (new_fs (cmd_pass_encrypt P w o salt)) F = Some (w_out (wtr s')) /\ stdout (cmd_pass_encrypt P w o salt) = []
+    | None => stdout (cmd_pass_encrypt P w o salt) = w_out (wtr s') /\ new_fs (cmd_pass_encrypt P w o salt) = fs w
+    end.
+Proof. exact pass_encrypt_success_delivers. Qed.
+Print Assumptions C12_pass_encrypt_success_delivers.
